@@ -371,4 +371,13 @@ theorem update_from_mapping_idem (C : Consistent hash eq) {t : Table K V} (hI : 
   refine ⟨t', h1, h2, fun k => ?_⟩
   rw [h3 k]; cases look C t k <;> rfl
 
+/-- `map_values(m, f)` with an erroring `f`: the result is the error of the FIRST stored entry (in the iteration order
+`keys`/`values` expose) on whose value `f` errs — the entries before it are mapped, none after it is evaluated into the
+result, and no table is produced -/
+theorem map_values_first_error {W : Type} (C : Consistent hash eq) (f : V → Res W) {t : Table K V} (hI : Inv C t)
+    (pre post : List (K × V)) (k : K) (v : V) (er : Err) (hsplit : toList t = pre ++ (k, v) :: post)
+    (hpre : ∀ kv ∈ pre, ∃ w, f kv.2 = .ok w) (hv : f v = .error er) :
+    mapValues hash eq f t = .error er :=
+  mapValues_err C f hI pre post k v er hsplit hpre hv
+
 end XrayModel.C17
